@@ -15,8 +15,9 @@ def in_ranges(v, rngs):
     return Or(*[And(v >= lo, v <= hi) if lo != hi else (v == lo) for lo, hi in rngs])
 
 
-def cp_obligations(sym, cpm, ref, vals_iffs, tag=""):
-    """cpm: real CoverpointModel after sampling; vals_iffs: list of (value, iff-cond) per sample"""
+def cp_obligations(sym, cpm, ref, vals_iffs, tag="", base=None):
+    """cpm: real CoverpointModel after sampling; vals_iffs: list of (value, iff-cond) per sample;
+    base: (hits, ignore hits, illegal hits) of the state the samples arrived in (None: fresh covergroup)"""
     nb = cpm.get_n_bins()
     sym.check(tag + "n_bins", nb == len(ref["bins"]))
     sym.check(tag + "n_ignore_bins", cpm.get_n_ignore_bins() == len(ref["ignore"]))
@@ -25,16 +26,22 @@ def cp_obligations(sym, cpm, ref, vals_iffs, tag=""):
         exp = 0
         for v, iff in vals_iffs:
             exp = exp + Ite(And(iff, in_ranges(v, ref["bins"][i][1])), 1, 0)
+        if base is not None:
+            exp = base[0][i] + exp
         sym.check(tag + "bin_hits[%d]" % i, cpm.get_bin_hits(i) == exp)
     for i in range(min(cpm.get_n_ignore_bins(), len(ref["ignore"]))):
         exp = 0
         for v, iff in vals_iffs:
             exp = exp + Ite(And(iff, in_ranges(v, ref["ignore"][i])), 1, 0)
+        if base is not None:
+            exp = base[1][i] + exp
         sym.check(tag + "ignore_hits[%d]" % i, cpm.get_ignore_bin_hits(i) == exp)
     for i in range(min(cpm.get_n_illegal_bins(), len(ref["illegal"]))):
         exp = 0
         for v, iff in vals_iffs:
             exp = exp + Ite(And(iff, in_ranges(v, ref["illegal"][i])), 1, 0)
+        if base is not None:
+            exp = base[2][i] + exp
         sym.check(tag + "illegal_hits[%d]" % i, cpm.get_illegal_bin_hits(i) == exp)
 
 
@@ -52,6 +59,16 @@ def build(item):
         cg, order = covref.build_cg(vsc, spec, enum_classes)
         cpm = cg.get_model().coverpoint_l[0]
         t = cp["type"]
+        base = tbase = None
+        if item.get("prestate"):
+            # the samples arrive in an arbitrary valid earlier state (symbolic counts, unhit set consistent with at_least)
+            from checks.c13 import inject
+            al = cp.get("at_least") or 1
+            tcp0 = cg.get_model().type_cg.coverpoint_l[0]
+            inject(sym, cpm, "I", al, item["prestate"])
+            inject(sym, tcp0, "T", al, item["prestate"])
+            base = (list(cpm.hit_l), list(cpm.hit_ignore_l), list(cpm.hit_illegal_l))
+            tbase = (list(tcp0.hit_l), list(tcp0.hit_ignore_l), list(tcp0.hit_illegal_l))
         vals_iffs = []
         for s in range(ns):
             args = []
@@ -70,10 +87,12 @@ def build(item):
                 args.append(f)
             vals_iffs.append((v, iff))
             cg.sample(*args)
-        cp_obligations(sym, cpm, ref, vals_iffs)
+        cp_obligations(sym, cpm, ref, vals_iffs, base=base)
         # the type-level model of a single instance sees the same hits
         tcp = cg.get_model().type_cg.coverpoint_l[0]
-        for i in range(min(tcp.get_n_bins(), cpm.get_n_bins())):
+        if tbase is not None:
+            cp_obligations(sym, tcp, ref, vals_iffs, tag="type:", base=tbase)
+        for i in range(min(tcp.get_n_bins(), cpm.get_n_bins()) if tbase is None else 0):
             sym.check("type_bin_hits[%d]" % i, tcp.get_bin_hits(i) == cpm.get_bin_hits(i))
     return dict(harness=h, theory="int", sig=sig, standins=e3.coverage_standins, max_paths=item.get("max_paths", 4000),
                 max_seconds=item.get("max_seconds", 90), desc="coverpoint %s x%d" % (_short(cp), ns))
@@ -214,6 +233,13 @@ def shapes(t, sd):
         add({"type": U8, "bins": [["a", "array", 2, [[1, 4], [8, 9]]]], "illegal": [["il", cut]]}, "illegal_array")
         add({"type": ["u", 4], "ignore": [["ig", [c if isinstance(c, int) else [min(c[0], 15), min(c[1], 15)] for c in cut]]], "auto_bin_max": 4}, "ignore_auto")
     add({"type": U8, "bins": [["a", "array", 3, [[0, 9]]]], "ignore": [["i1", [2]], ["i2", [[5, 6]]]], "illegal": [["l1", [9]]]}, "ignore_illegal_mix", ns=2)
+    # samples arriving in an arbitrary earlier state (all bins covered / none / alternating), also with at_least > 1
+    for pat in ("all", "none", "alt"):
+        for al in (None, 3):
+            add({"type": U8, "bins": [["a", "array", None, [[1, 4]]], ["b", "bin", [9, [20, 30]]], ["c", "array", 2, [[40, 47]]]], "at_least": al,
+                 "ignore": [["ig", [3]]], "illegal": [["il", [[100, 101]]]]}, "from_state_mixed", ns=2, prestate=pat)
+            add({"type": ["u", 3], "auto_bin_max": 4, "at_least": al}, "from_state_auto", ns=2, prestate=pat)
+        add({"type": U8, "bins": [["w", "wild", [[0b0100, 0b1100]]], ["lo", "bin", [[0, 3]]]]}, "from_state_wild", ns=2, prestate=pat)
     # auto bins
     for w in (1, 2, 3, 4, 8):
         for abm in (None, 1, 2, 3, 5, 64):
